@@ -1,3 +1,4 @@
 import RaftVerif.Model.RunLoop
 import RaftVerif.Proofs.Snapshot
+import RaftVerif.Proofs.Leader
 /-! # C18 — leadership notifications.  Registered: `RL.notify_alternates`. -/
